@@ -24,7 +24,7 @@ find $CP/harness/src -name '*.rs' -exec touch {} +
 if ! git -C $WT apply --check "$PATCH" 2>/dev/null; then echo "PATCH-DOES-NOT-APPLY"; exit 2; fi
 git -C $WT apply "$PATCH"
 for c in $CHECKS; do
-  out=$(cd $CP && VERIF_REPO=$WT ./check $c --tier quick 2>&1 | grep -E 'VIOLATION|KNOWN-FINDING' | head -5)
+  out=$(cd $CP && VERIF_REPO=$WT ./check $c --tier quick 2>&1 | grep -E 'VIOLATION|KNOWN-FINDING' | sed -E 's/^(KNOWN-FINDING: property=[A-Z0-9]+ [A-Za-z0-9_]+):.*/\1/' | head -8)
   echo "== $c: $(echo "${out:-no violation reported}" | cut -c1-260 | tr '\n' ';')"
 done
 git -C $WT checkout -q -- .
